@@ -15,10 +15,11 @@
                               table: which operator the keys are resolved in (planner/convert.rs
                               LogicalOperator::Limit / Sort, builder.rs SortExec / TopKExec /
                               ProjectExec), how a key that does not resolve becomes the constant
-                              NULL (eval_sort_expr_standalone), the projection that is applied twice
-                              when the scan already projected (database.rs `needs_all_columns`),
-                              and the DISTINCT pass of query_with_columns that runs AFTER the
-                              executor and applies LIMIT / OFFSET a second time.
+                              NULL (eval_sort_expr_standalone), and the DISTINCT pass of
+                              query_with_columns: as of commits d679a09 / 2ad4719 / 84a97fb a DISTINCT
+                              statement is planned WITHOUT its LIMIT / OFFSET, duplicates are removed
+                              from the whole ordered result (0.0 and -0.0 hashed alike) and the window
+                              is applied once; a pushed-down column list is no longer projected twice.
    Not modelled (the model answers MUnmod): float arithmetic in key expressions, integer overflow
    in key expressions (a dev-profile panic that depends on which comparisons the sort performs),
    malformed queries. *)
@@ -141,6 +142,7 @@ Fixpoint kexpr_cols (e : kexpr) : list nat :=
   | XInt _ => []
   | XBin _ a b => kexpr_cols a ++ kexpr_cols b
   | XNeg a => kexpr_cols a
+  | XAbs a => kexpr_cols a
   end.
 Definition key_cols (k : key) : list nat :=
   match k with KCol c _ => [c] | KAlias _ => [] | KExpr e => kexpr_cols e end.
@@ -157,7 +159,14 @@ Fixpoint eval_kexpr (vis : list nat) (r : row) (e : kexpr) : option value :=
       | Some _, Some _ => Some VNull
       | _, _ => None
       end
-  | XNeg _ => Some VNull                      (* Expr::UnaryOp falls into `_ => Value::Null` *)
+  | XNeg a =>                                 (* eval_unary_op_standalone (commit 64df99f): checked_neg *)
+      match eval_kexpr vis r a with
+      | Some (VInt x) => Some (if i64_ok (- x) then VInt (- x) else VNull)
+      | Some (VFloat _) => None                (* float negation: not modelled, like all float arithmetic *)
+      | Some _ => Some VNull
+      | None => None
+      end
+  | XAbs _ => Some VNull                      (* Expr::Function falls into `_ => Value::Null` *)
   end.
 Definition eval_src (r : row) (s : ksrc) : option value :=
   match s with
@@ -225,10 +234,14 @@ Definition impl_srcs (ncols : nat) (q : query) : list ksrc :=
 
 (* ------------------------------------------------------------------ the output row *)
 Definition proj (cols : list nat) (r : row) : row := map (fun c => nth c r VNull) cols.
-Inductive pay_mode := PayNormal | PayTwice | PayEmpty.
+Inductive pay_mode := PayNormal | PayEmpty.
 Definition has_order (q : query) : bool := match q_keys q with [] => false | _ => true end.
 Definition has_window (q : query) : bool :=
   match q_limit q, q_offset q with None, None => false | _, _ => true end.
+(* the statement the executor runs: a DISTINCT statement is planned without LIMIT / OFFSET *)
+Definition strip_window (q : query) : query :=
+  mkQ (q_distinct q) (q_sel q) (q_where q) (q_keys q) None None.
+Definition exec_q (q : query) : query := if q_distinct q && has_window q then strip_window q else q.
 Definition pay_mode_of (q : query) : pay_mode :=
   match q_sel q with
   | SelStar =>
@@ -236,16 +249,11 @@ Definition pay_mode_of (q : query) : pay_mode :=
          from the select items that are columns: `*` leaves none *)
       if has_order q && (match q_limit q with None => existsb is_expr_key (map fst (q_keys q)) | Some _ => false end)
       then PayEmpty else PayNormal
-  | SelList _ =>
-      (* no filter, no ordering, root = ProjectExec: the scan projects, then ProjectExec projects again *)
-      if negb (has_order q) && negb (has_window q) && (match q_where q with None => true | Some _ => false end)
-      then PayTwice else PayNormal
+  | SelList _ => PayNormal
   end.
 Definition impl_pay (ncols : nat) (q : query) (r : row) : row :=
-  let cols := out_cols ncols (q_sel q) in
   match pay_mode_of q with
-  | PayNormal => proj cols r
-  | PayTwice => proj cols (proj cols r)
+  | PayNormal => proj (out_cols ncols (q_sel q)) r
   | PayEmpty => []
   end.
 
@@ -258,20 +266,19 @@ Definition impl_elt (srcs : list ksrc) (ncols : nat) (q : query) (r : row) : opt
   | None => None
   end.
 
-(* DISTINCT in query_with_columns: first occurrence by the Debug rendering of every value
-   (hashed with DefaultHasher; 64-bit collisions are not modelled), i.e. bit-for-bit equality *)
-Fixpoint dedupe_rows (seen : list row) (rows : list row) : list row :=
+(* DISTINCT in query_with_columns: first occurrence by the Debug rendering of every value, zeros
+   rendered alike (hashed with DefaultHasher; 64-bit collisions are not modelled), i.e. bit-for-bit
+   equality of the rows after normalising -0.0; the row kept is the first one as it is *)
+Fixpoint dedupe_rows_n (seen : list row) (rows : list row) : list row :=
   match rows with
   | [] => []
-  | r :: rows' => if existsb (row_eqb r) seen then dedupe_rows seen rows' else r :: dedupe_rows (r :: seen) rows'
+  | r :: rows' =>
+      if existsb (row_eqb (norm_row r)) seen then dedupe_rows_n seen rows'
+      else r :: dedupe_rows_n (norm_row r :: seen) rows'
   end.
-(* ... followed by `skip(offset).take(limit)` / `skip(offset)` once more *)
+(* ... followed by `skip(offset).take(limit)` / `skip(offset)`, the statement's own window *)
 Definition distinct_post (q : query) (rows : list row) : list row :=
-  let d := dedupe_rows [] rows in
-  match q_lim q with
-  | Some l => firstn l (skipn (q_off q) d)
-  | None => skipn (q_off q) d
-  end.
+  window (q_off q) (q_lim q) (dedupe_rows_n [] rows).
 
 Definition well_formed (ncols : nat) (q : query) : bool :=
   nonneg (q_limit q) && nonneg (q_offset q) &&
@@ -281,23 +288,24 @@ Definition well_formed (ncols : nat) (q : query) : bool :=
 
 Definition model_query (ncols : nat) (q : query) (t : table) : mres :=
   if negb (well_formed ncols q) then MUnmod else
+  let qe := exec_q q in
   let rows0 := filter (passes_where (q_where q)) t in
-  let srcs := impl_srcs ncols q in
-  match all_some (map (impl_elt srcs ncols q) rows0) with
+  let srcs := impl_srcs ncols qe in
+  match all_some (map (impl_elt srcs ncols qe) rows0) with
   | None => MUnmod
   | Some elts =>
       let cmp := impl_elt_cmp (q_dirs q) in
       let ordered : option (list elt) :=
-        if has_order q then
-          match q_lim q with
+        if has_order qe then
+          match q_lim qe with
           | Some l =>                                                (* TopKExec *)
-              match topk cmp (l + q_off q) elts with
-              | TOk out => Some (firstn l (skipn (q_off q) out))
+              match topk cmp (l + q_off qe) elts with
+              | TOk out => Some (firstn l (skipn (q_off qe) out))
               | _ => None
               end
-          | None => Some (limit_exec None (q_off q) (isort (c_less cmp) elts))   (* SortExec [+ LimitExec] *)
+          | None => Some (limit_exec None (q_off qe) (isort (c_less cmp) elts))   (* SortExec [+ LimitExec] *)
           end
-        else Some (limit_exec (q_lim q) (q_off q) elts) in
+        else Some (limit_exec (q_lim qe) (q_off qe) elts) in
       match ordered with
       | None => MUnmod
       | Some out =>
@@ -308,8 +316,6 @@ Definition model_query (ncols : nat) (q : query) (t : table) : mres :=
 
 (* ------------------------------------------------------------------ recorded finding classes *)
 (* does the implementation read key k from where the reference says? *)
-Fixpoint kexpr_has_neg (e : kexpr) : bool :=
-  match e with XNeg _ => true | XBin _ a b => kexpr_has_neg a || kexpr_has_neg b | _ => false end.
 Definition key_class (ncols : nat) (s : select) (k : key) (src : ksrc) : Z :=
   match key_den ncols s k, src with
   | None, _ => 0                                   (* invalid key: the reference does not say *)
@@ -317,38 +323,28 @@ Definition key_class (ncols : nat) (s : select) (k : key) (src : ksrc) : Z :=
   | Some (DCol _), SrcExpr (XInt _) _ => 2         (* ordinal read as a constant *)
   | Some (DCol _), _ => 1                          (* column name / alias not resolved: constant NULL *)
   | Some (DExpr _), SrcExpr e vis =>
-      if kexpr_has_neg e then 3                    (* unary minus evaluates to NULL *)
-      else if forallb (fun c => mem c vis) (kexpr_cols e) then 0 else 3
-  | Some (DExpr _), _ => 3
+      if negb (forallb (fun c => mem c vis) (kexpr_cols e)) then 1   (* a column of the expression is not visible: NULL *)
+      else if kexpr_has_fn e then 3                (* a function call evaluates to NULL *)
+      else 0
+  | Some (DExpr _), _ => 1
   end.
 Fixpoint first_nonzero (l : list Z) : Z :=
   match l with [] => 0 | x :: l' => if x =? 0 then first_nonzero l' else x end.
 
 (* 0 = no recorded finding applies.
-   1  a column / alias key that does not resolve in the sort operator's input sorts by NULL
+   1  a column / alias (as a key or inside a key expression) that does not resolve in the sort
+      operator's input reads NULL
    2  an ordinal key (ORDER BY 2) is read as the constant 2
-   3  an expression key with unary minus (or with a column visible only under an alias) is NULL
-   4  DISTINCT with LIMIT / OFFSET: duplicates are removed AFTER the window, which is applied twice
-   5  SELECT [DISTINCT] cols FROM t without WHERE / ORDER BY / LIMIT projects twice
-   6  SELECT * ... ORDER BY <expression> without LIMIT returns rows without columns *)
-Definition known_class_q (ncols : nat) (q : query) : Z :=
+   3  a function call in a key (ORDER BY ABS(c)) evaluates to NULL
+   6  SELECT * ... ORDER BY <expression> without LIMIT returns rows without columns
+   (4, 5, 7 and the unary-minus part of 3 were repaired in /repo: commits d679a09, 84a97fb, 2ad4719,
+    64df99f; their witnesses stay in the corpus and must now satisfy the property.)
+   The classes are those of the statement the executor runs ([exec_q]). *)
+Definition class_of (ncols : nat) (q : query) : Z :=
   match pay_mode_of q with
-  | PayTwice => if forall2b Nat.eqb (out_cols ncols (q_sel q)) (seq 0 (length (out_cols ncols (q_sel q))))
-                then 0 else 5
   | PayEmpty => 6
   | PayNormal =>
-      if q_distinct q && has_window q then 4
-      else first_nonzero (map (fun ks => key_class ncols (q_sel q) (fst (fst ks)) (snd ks))
-                              (combine (q_keys q) (impl_srcs ncols q)))
+      first_nonzero (map (fun ks => key_class ncols (q_sel q) (fst (fst ks)) (snd ks))
+                         (combine (q_keys q) (impl_srcs ncols q)))
   end.
-
-(* 7  DISTINCT compares rows by their Debug rendering: -0.0 and 0.0 (equal in SQL) both survive.
-      Depends on the data: a selected row carries -0.0 in an output column. *)
-Definition is_negzero (v : value) : bool := match v with VFloat b => b =? 2 ^ 63 | _ => false end.
-Definition known_class_case (ncols : nat) (q : query) (t : table) : Z :=
-  let k := known_class_q ncols q in
-  if negb (k =? 0) then k
-  else if q_distinct q &&
-          existsb (fun r => existsb is_negzero (proj (out_cols ncols (q_sel q)) r))
-                  (filter (passes_where (q_where q)) t)
-       then 7 else 0.
+Definition known_class_q (ncols : nat) (q : query) : Z := class_of ncols (exec_q q).
